@@ -300,6 +300,8 @@ val move_ok : (n * n) list -> n -> n -> bool
 
 val legalb : (n * n) list -> history -> bool
 
+val wf_histb : n list -> q -> history -> bool
+
 val good_histb : n list -> (n * n) list -> q -> history -> bool
 
 val step_at : row list -> q -> z list option -> z list option
